@@ -63,6 +63,11 @@ BASE = {
             "lib/api.oal": 'use "types.oal" as t;\nuse "../types.oal" as rt;\nlet item = { \'id t.ident, \'n rt.ident };\n',
             "lib/types.oal": "let ident = str `format: \"uuid\"`;\n"}},
     },
+    "an-operator-under-the-same-operator": {
+        "files": {"main.oal": "let cat = { 'c str };\nlet dog = { 'd str };\nlet bird = { 'b str };\nlet other = dog ~ bird;\nlet any3 = cat ~ other;\nlet o2 = dog | bird;\nlet sum3 = cat | o2;\n"
+                              "let j2 = dog & bird;\nlet all3 = cat & j2;\nres / on get -> <any3> :: <status=404, sum3> :: <status=500, all3>;\n"},
+        "inline": ["other", "o2", "j2"], "identity": ["other", "o2"], "module": ["dog", "bird", "other"],
+    },
     "two-recursive-schemas": {
         "files": {"main.oal": "let tree = { 'id int, 'kids [tree] };\nlet chain = { 'id str, 'rest [chain] };\nres /t on get -> <tree>;\nres /c on get -> <chain>;\n"},
         "inline": [], "identity": [], "module": ["tree"], "split": [["tree"], ["chain"]],
